@@ -96,6 +96,16 @@ fn main() {
                 None => 2,
             }
         }
+        "build-sut" => match engine::realbin::build(false).and_then(|_| engine::realbin::build(true)) {
+            Ok(p) => {
+                println!("built {}", p.display());
+                0
+            }
+            Err(e) => {
+                println!("BROKEN-CHECK {}", e);
+                2
+            }
+        },
         "list" => {
             for p in props::all() {
                 println!("{}", p.id());
